@@ -238,10 +238,84 @@ def rule_init_offsets(ctx):
             continue        # the short-buffer edge can still reach the drain: not a guard
         bounds |= E
     ok = True
+    # a term that is the answer of a helper of this crate (`ret:helper`): the helper may hold the length check itself.  Its summary:
+    # the payload it returns (Some(n) / Ok(n)) and the amounts E of its own `len_argument < E -> no payload` checks, where the
+    # argument compared is the buffer length at the call site.
+    from ..symexpr import _join_sum
+
+    def helper_summary(g, t):
+        gs = Sym(g)
+        len_args = set()
+        for i, a in enumerate(t[2]):
+            if any("len(" in show(x) and "buffer" in show(x) for x in sym.operand(a)):
+                len_args.add("arg%d" % (i + 1))
+        payload, pay_blocks = set(), set()
+        for b, blk in enumerate(g.blocks):
+            if blk[2]:
+                continue
+            for st in blk[0]:
+                if st[0] == "=" and st[2][0] == "agg" and st[2][1][0] == "adt" and st[2][1][1] in ("core::option::Option", "core::result::Result") \
+                        and st[2][1][2] in ("Some", "Ok") and st[2][2]:
+                    ol = op_local(st[2][2][0])
+                    if ol is not None and g.local_ty(ol) == "usize":
+                        payload |= gs.operand(st[2][2][0])
+                        pay_blocks.add(b)
+        gb_ = set()
+        for b, blk in enumerate(g.blocks):
+            if blk[2] or blk[1][0] != "switch":
+                continue
+            cl = op_local(blk[1][1])
+            cmp_st = next((st for st in blk[0] if st[0] == "=" and st[1] == [cl] and st[2][0] == "bin" and st[2][1] in ("Lt", "Gt", "Le", "Ge")), None)
+            if cmp_st is None:
+                continue
+            A, B = gs.operand(cmp_st[2][2]), gs.operand(cmp_st[2][3])
+            op = cmp_st[2][1]
+            isl = lambda X: bool(X) and all(x in len_args for x in X)
+            if isl(A) and op in ("Lt", "Ge"):
+                E, short_when_true = B, op == "Lt"
+            elif isl(B) and op in ("Gt", "Le"):
+                E, short_when_true = A, op == "Gt"
+            else:
+                continue
+            zero = [x for v, x in blk[1][2] if v == "0"]
+            if not zero:
+                continue
+            short_edge = blk[1][3] if short_when_true else zero[0]
+            if g.reachable(short_edge) & pay_blocks:
+                continue
+            gb_ |= E
+        return payload, gb_
+
+    helpers = {}
+    for hb, ht in f.calls():
+        c = callee(ht)
+        g = (ctx.prog.fn(c.get("res") or c["fn"]) or ctx.prog.fn(c["fn"])) if c else None
+        if g is not None and g.path.startswith("jxl_oxide::") and g.path != f.path and len(g.blocks) < 400:
+            helpers.setdefault("ret:" + g.path.split("::")[-1].split("<")[0], []).append((g, ht))
+
+    def covered_by_helper(alt):
+        terms_ = alt[1]
+        for i, x in enumerate(terms_):
+            for g, ht in helpers.get(x, []) if isinstance(x, str) else []:
+                payload, gb_ = helper_summary(g, ht)
+                for pl in payload:
+                    e = pl
+                    for j, y in enumerate(terms_):
+                        if j != i:
+                            e = _join_sum(e, y)
+                    if e in gb_:
+                        return g, show(e)
+        return None
+
     for alt in sorted(D, key=repr):
         plain = not (isinstance(alt, tuple) and alt[0] == "+")
         if plain:
             continue      # exactly what the reader consumed: always within the buffer the reader was created over
+        hv = covered_by_helper(alt) if alt not in bounds else None
+        if hv is not None:
+            ctx.ok(rid, "drain-covered:" + show(alt), "the helper %s returns its part of the amount only after `buffer length < %s` has been ruled out"
+                   % (hv[0].path.split("::")[-1], hv[1]), nontrivial=True, fn=f)
+            continue
         if alt in bounds:
             ctx.ok(rid, "drain-covered:" + show(alt), "a dominating `buffer.len() < %s -> NeedMoreData` covers this amount" % show(alt), nontrivial=True, fn=f)
         else:
